@@ -3,4 +3,4 @@ package main
 
 import "verifharness/h2rig"
 
-func main() { h2rig.Main("c10_failures") }
+func main() { h2rig.MainOpt("c10_failures", true) }
